@@ -185,10 +185,12 @@ def rule_a(ctx):
             if ("slice::Iter<" in sty or "slice::IterMut<" in sty) and "IntoIter" not in sty and "Drain" not in sty:
                 continue  # an iterator over borrowed nodes: skipping an element destroys nothing
             nf += 1
-            key = "%s:%s" % (fn_key(b), callee_method(t))
-            row = table.get((fn_key(b), callee_method(t)))
+            # filter / filter_map / flat_map over Options are one idiom: "keep the children of the expected kind"
+            meth = "filter" if callee_method(t) in ("filter", "filter_map", "flat_map") else callee_method(t)
+            key = "%s:%s" % (fn_key(b), meth)
+            row = table.get((fn_key(b), meth))
             if row:
-                used.add((fn_key(b), callee_method(t)))
+                used.add((fn_key(b), meth))
                 ctx.ok("C03-A", key, t["span"], b.id, row, how="table")
             else:
                 ctx.violation("C03-A", key, t["span"], b.id,
